@@ -297,6 +297,25 @@ func (e *UMultiAs) As(target interface{}) bool {
 	return false
 }
 
+// UMultiIs: unregistered multi-cause type with an Is method that
+// matches one sentinel of the pool by identity (the standard library
+// asks the node's own Is method before it descends into the causes).
+type UMultiIs struct {
+	Msg    string
+	Causes []error
+	Target string
+}
+
+func (e *UMultiIs) Error() string {
+	s := e.Msg
+	for _, c := range e.Causes {
+		s += "; " + c.Error()
+	}
+	return s
+}
+func (e *UMultiIs) Unwrap() []error      { return e.Causes }
+func (e *UMultiIs) Is(target error) bool { return identicalErr(target, Sentinels[e.Target]) }
+
 // ULeafAs: leaf with an As method: it can be seen as a *ULeafPtr
 // carrying the same message.
 type ULeafAs struct {
